@@ -2786,6 +2786,74 @@ func c03r12(c *Ctx, r *Report) {
 	r.floor("returns of bonusAt", n, 2)
 }
 
+// c08r27: `changed` says that the event loop has to post a search request at the end of the iteration. The
+// actions of one binding accumulate into it: an action may set it, none may take back what an earlier action of
+// the same list asked for (D101: toggle-search assigned `changed = !t.paused`: `exclude+toggle-search`,
+// `toggle-sort+toggle-search` and `change-nth(..)+toggle-search` lost the request — the exclusion never reached
+// the list).
+func c08r27(c *Ctx, r *Report) {
+	l := c.L
+	r.rule("C08-R27", "D (the search-request flag only accumulates)", "P1",
+		"in the closures of Terminal.Loop, every store into the captured variable `changed` stores the constant true or a value computed from the variable's own current value by ||",
+		"an action list whose last action rewrites the flag drops the search request of the actions before it: the list on display does not reflect the exclusion / sort toggle / nth change that was just made")
+	loop := l.Fn("fzf", "(*Terminal).Loop")
+	if loop == nil {
+		r.unest("anchors", token.NoPos, nil, "anchor Terminal.Loop", "cannot resolve")
+		return
+	}
+	n := 0
+	for _, fn := range withClosures(loop) {
+		eachInstr(fn, func(in ssa.Instruction) {
+			st, ok := in.(*ssa.Store)
+			if !ok {
+				return
+			}
+			nm, ok := st.Addr.(interface{ Name() string })
+			if !ok || nm.Name() != "changed" {
+				return
+			}
+			switch st.Addr.(type) {
+			case *ssa.FreeVar, *ssa.Alloc:
+			default:
+				return
+			}
+			n++
+			good := false
+			if bv, ok := constBool(st.Val); ok && bv {
+				good = true
+			} else if fn == loop {
+				if _, isAlloc := st.Addr.(*ssa.Alloc); isAlloc {
+					if bv, ok := constBool(st.Val); ok && !bv {
+						good = true // the declaration at the top of an iteration
+					}
+				}
+			}
+			if !good {
+				// x || y is a phi [true, y] in the block after a branch on a load of the variable
+				if phi, ok := st.Val.(*ssa.Phi); ok {
+					hasTrue, onSelf := false, false
+					for _, e := range phi.Edges {
+						if bv, ok := constBool(e); ok && bv {
+							hasTrue = true
+						}
+					}
+					for _, p := range phi.Block().Preds {
+						if iff, ok := p.Instrs[len(p.Instrs)-1].(*ssa.If); ok {
+							if u, ok := iff.Cond.(*ssa.UnOp); ok && u.Op == token.MUL && u.X == st.Addr {
+								onSelf = true
+							}
+						}
+					}
+					good = hasTrue && onSelf
+				}
+			}
+			r.check(good, fmt.Sprintf("%s:store #%d into changed keeps an earlier request", relName(rootFn(fn)), n), st.Pos(), fn,
+				"true, or changed || …", "the flag is assigned "+describe(st.Val)+": a request made by an earlier action of the same list is overwritten")
+		})
+	}
+	r.floor("stores into the search-request flag", n, 8)
+}
+
 func round10(c *Ctx, r *Report, prop string) {
 	switch prop {
 	case "C01":
@@ -2826,6 +2894,7 @@ func round10(c *Ctx, r *Report, prop string) {
 		c08r24(c, r)
 		c08r25(c, r)
 		c08r26(c, r)
+		c08r27(c, r)
 	case "C14":
 		c14r21(c, r)
 	case "C15":
